@@ -1,7 +1,7 @@
 (* C19 for the two example instances: the obligations on the regenerated tables are decidable checks
    (evaluated in Props/C19.v by vm_compute); here they are connected to the generic theorems. *)
-From P2 Require Import Base.Prelude Sem.Num Lex.Token Syn.Ast Syn.Parse Syn.Render Gen.Generic Gen.GenericProofs
-  Gen.Instances Generated.ExampleCfg.
+From P2 Require Import Base.Prelude Base.PreludeProofs Sem.Num Sem.NumProofs Lex.Token Syn.Ast Syn.Parse Syn.Render
+  Gen.Generic Gen.GenericProofs Gen.Instances Generated.ExampleCfg.
 Require Import Lia.
 Local Open Scope N_scope.
 
@@ -80,8 +80,81 @@ Proof.
   specialize (H1 E1 E2). vm_compute in H1. discriminate.
 Qed.
 
-(* the strongest statement about the float table that is proved: the regrouping law is a hypothesis
-   (it is the exact-arithmetic associativity of + and * on representable results; checked on a grid below) *)
+(* ---------- the regrouping law of the flagged float operators, for ALL operands ---------- *)
+Lemma fl_in_good a a' : fl_in a = Some a' -> good a'.
+Proof.
+  destruct a as [m e| | |]; cbn [fl_in]; try discriminate.
+  - apply mkfl_good.
+  - intros H. inversion H. exact I.
+Qed.
+
+Lemma good_fl_in a : good a -> fl_in a = Some a.
+Proof. destruct a as [m e| | |]; cbn [fl_in good]; try tauto. apply good_mkfl. Qed.
+
+(* an operation that regroups on well-formed values regroups, behind the operand check, on all terms *)
+Section Chk.
+Variable f : fl -> fl -> option fl.
+Hypothesis f_comm : forall a b, f a b = f b a.
+Hypothesis f_good : forall a b r, good a -> good b -> f a b = Some r -> good r.
+Hypothesis f_regroup : forall c1 c2 x c y v, good c1 -> good c2 -> good x ->
+  f c1 c2 = Some c -> f c1 x = Some y -> f y c2 = Some v -> f c x = Some v.
+
+Lemma chk2_some a b r : chk2 f a b = Some r ->
+  exists a' b', fl_in a = Some a' /\ fl_in b = Some b' /\ good a' /\ good b' /\ f a' b' = Some r /\ good r.
+Proof.
+  unfold chk2. destruct (fl_in a) as [a'|] eqn:Ea; [|discriminate]. destruct (fl_in b) as [b'|] eqn:Eb; [|discriminate].
+  intros H. exists a', b'. pose proof (fl_in_good _ _ Ea). pose proof (fl_in_good _ _ Eb). eauto 10.
+Qed.
+
+Lemma chk2_regroup : forall c1 c2 c, chk2 f c1 c2 = Some c -> forall x y v,
+  (chk2 f c1 x = Some y -> chk2 f y c2 = Some v -> chk2 f c x = Some v) /\
+  (chk2 f x c1 = Some y -> chk2 f y c2 = Some v -> chk2 f x c = Some v).
+Proof.
+  intros c1 c2 c Hc x y v.
+  destruct (chk2_some _ _ _ Hc) as (c1' & c2' & E1 & E2 & G1 & G2 & Fc & Gc).
+  assert (Main : forall x', fl_in x = Some x' -> good x' -> f c1' x' = Some y -> good y ->
+                            chk2 f y c2 = Some v -> f c x' = Some v).
+  { intros x' Ex Gx Fy Gy Hv. unfold chk2 in Hv. rewrite (good_fl_in y Gy), E2 in Hv.
+    exact (f_regroup c1' c2' x' c y v G1 G2 Gx Fc Fy Hv). }
+  split; intros Hy Hv.
+  - destruct (chk2_some _ _ _ Hy) as (a' & x' & Ea & Ex & _ & Gx & Fy & Gy).
+    rewrite E1 in Ea. inversion Ea. subst a'.
+    unfold chk2. rewrite (good_fl_in c Gc), Ex. exact (Main x' Ex Gx Fy Gy Hv).
+  - destruct (chk2_some _ _ _ Hy) as (x' & a' & Ex & Ea & Gx & _ & Fy & Gy).
+    rewrite E1 in Ea. inversion Ea. subst a'. rewrite f_comm in Fy.
+    unfold chk2. rewrite Ex, (good_fl_in c Gc), f_comm. exact (Main x' Ex Gx Fy Gy Hv).
+Qed.
+End Chk.
+
+Definition add_regroup := chk2_regroup fl_add fl_add_comm fl_add_good fl_add_regroup.
+Definition mul_regroup := chk2_regroup fl_mul fl_mul_comm fl_mul_good fl_mul_regroup.
+
+(* any float table whose flagged operators are among sum and product satisfies the regrouping law *)
+Theorem float_regroup_ok : float_flags_justified ex_float_ops = true -> regroup_ok fl float_cfg.
+Proof.
+  intros J o Hin Hc. unfold float_cfg in Hin. cbn [g_ops] in Hin. apply in_map_iff in Hin.
+  destruct Hin as ([[name pure] comm] & <- & Hin). cbn [float_binop b_comm b_impl] in *. subst comm.
+  unfold float_flags_justified in J. rewrite forallb_forall in J. specialize (J _ Hin). cbn [negb orb] in J.
+  apply orb_prop in J. destruct J as [J|J]; apply str_eqb_eq in J; subst name.
+  - exact add_regroup.
+  - exact mul_regroup.
+Qed.
+
+Theorem float_correct : float_flags_justified ex_float_ops = true -> cfg_ok fl float_cfg = true ->
+  forall e r d args vals v (opt : bool),
+    to_rt float_cfg e = Some r -> snames_ok e = true -> length args = length vals ->
+    denote float_cfg (rho_of args vals) e = Some v ->
+    run float_cfg opt args (flatten (pcfg_of float_cfg) (pp (pcfg_of float_cfg) d r)) vals = ROk v.
+Proof. intros J H. exact (generic_correct fl float_cfg H (float_regroup_ok J)). Qed.
+
+Theorem float_ast_correct : float_flags_justified ex_float_ops = true ->
+  forall a args vals v,
+    names_ok fl float_cfg a = true -> gen_check float_cfg args a = true -> length args = length vals ->
+    geval fl float_cfg (combine args vals) a = Some v ->
+    forall opt : bool, run_gast float_cfg args (if opt then opt_all float_cfg [] a else a) vals = ROk v.
+Proof. intros J. exact (gast_correct fl float_cfg (float_regroup_ok J)). Qed.
+
+(* a table as a parameter (any flags): with the regrouping law as the hypothesis *)
 Theorem float_correct_partial : forall c : gcfg fl, cfg_ok fl c = true -> regroup_ok fl c ->
   forall e r d args vals v (opt : bool),
     to_rt c e = Some r -> snames_ok e = true -> length args = length vals ->
@@ -100,13 +173,6 @@ Theorem float_correct_unflagged : forall c : gcfg fl, cfg_ok fl c = true -> unfl
     denote c (rho_of args vals) e = Some v ->
     run c opt args (flatten (pcfg_of c) (pp (pcfg_of c) d r)) vals = ROk v.
 Proof. intros c H U. exact (generic_correct fl c H (regroup_ok_unflagged fl c U)). Qed.
-
-Theorem float_ast_correct_partial : forall c : gcfg fl, regroup_ok fl c ->
-  forall a args vals v,
-    names_ok fl c a = true -> gen_check c args a = true -> length args = length vals ->
-    geval fl c (combine args vals) a = Some v ->
-    forall opt : bool, run_gast c args (if opt then opt_all c [] a else a) vals = ROk v.
-Proof. intros c R. exact (gast_correct fl c R). Qed.
 
 (* the regrouping law of the flagged float operators on the property's grid of exactly representable operands *)
 Definition float_grid : list fl :=
